@@ -76,9 +76,9 @@ class Spec:
                     self.lambdas.append((parts[1], parts[2]))
                 elif d == '@slice':
                     # @slice <function> <name> from_decl <var> until_ref <identifier> | until_decl <var>
-                    if len(parts) != 7 or parts[3] != 'from_decl' or parts[5] not in ('until_ref', 'until_decl'):
-                        raise LoweringError(f'{path}: @slice <function> <name> from_decl <var> until_ref|until_decl <name>')
-                    self.slices.append((parts[1], parts[2], parts[4], parts[5], parts[6]))
+                    if len(parts) != 7 or parts[3] not in ('from_decl', 'from_ref') or parts[5] not in ('until_ref', 'until_decl'):
+                        raise LoweringError(f'{path}: @slice <function> <name> from_decl|from_ref <var> until_ref|until_decl <name>')
+                    self.slices.append((parts[1], parts[2], parts[4], parts[5], parts[6], parts[3]))
                 elif d == '@types':
                     self.types += parts[1:]
                 elif d == '@globals':
